@@ -28,7 +28,37 @@ import (
 const ccTimeoutSlowBody, ccTimeoutFastBody = "slow-result", "fast"
 
 func ccTimeoutOp() string {
-	return "plain " + ccTimeoutScenario(false) + " | static " + ccTimeoutScenario(true)
+	return "plain " + ccTimeoutScenario(false) + " | static " + ccTimeoutScenario(true) + " | panic " + ccTimeoutPanic()
+}
+
+// ccTimeoutPanic: behind handlers.Timeout a handler waits until the deadline has passed and then panics; the router's
+// OnPanic hook answers 500 "recovered".  The client sees exactly the hook's answer (what the middleware records while
+// the panic passes through it is a status that the hook replaces, nothing is sent before the hook runs).
+func ccTimeoutPanic() string {
+	r := rux.New()
+	r.OnPanic = func(c *rux.Context) {
+		c.SetStatus(500)
+		c.WriteString("recovered")
+	}
+	r.Use(handlers.Timeout(5 * time.Millisecond))
+	r.GET("/slow", func(c *rux.Context) {
+		<-c.Req.Context().Done()
+		panic("boom")
+	})
+	w := httptest.NewRecorder()
+	res := ""
+	func() {
+		defer func() {
+			if v := recover(); v != nil {
+				res = "escaped"
+			}
+		}()
+		r.ServeHTTP(w, httptest.NewRequest("GET", "/slow", nil))
+	}()
+	if res != "" {
+		return res
+	}
+	return fmt.Sprintf("%d:%s", w.Code, hx(w.Body.String()))
 }
 
 type ccSlowFS struct {
